@@ -97,11 +97,13 @@ type SessionOpts struct {
 	FirstIDR    int // index of the first IDR video unit (units before it are non-IDR and must be dropped by the recorder)
 	AudioCount  int
 	AudioLead   time.Duration // audio starts this much before (positive) the first video unit
+	AudioSkew   time.Duration // audio timestamps (PTS and absolute time) are this much ahead of the arrival order (A/V skew)
 	VideoSize   int
 	AudioSize   int
 }
 
-// Build generates a session: units are interleaved in timestamp order (video first on ties).
+// Build generates a session: units are interleaved in timestamp order (video first on ties;
+// a track with a skew is interleaved by its timestamps without the skew).
 func (b *Builder) Build(o SessionOpts) Session {
 	var s Session
 	vi, ai := -1, -1
@@ -130,6 +132,8 @@ func (b *Builder) Build(o SessionOpts) Session {
 		for i := 0; i < o.AudioCount; i++ {
 			pts := first + int64(i)*1024
 			t := time.Duration(pts * int64(time.Second) / 44100)
+			// a skewed track arrives where it would without the skew, with timestamps shifted
+			pts += int64(o.AudioSkew) * 44100 / int64(time.Second)
 			evs = append(evs, ev{t, UnitSpec{Track: ai, PTS: pts, IDR: true, Size: o.AudioSize}})
 		}
 	}
